@@ -707,7 +707,16 @@ def run_check(prop, obs, tier, seed, level_text="", assumptions=(), outside=(),
         x.ob_prop = prop
         results.append(x)
         if x.status == "violation":
-            violations.append(x)
+            # a listed finding is matched by the exact obligation (public shape) it names, and only when the concrete
+            # replay reproduced it; any other violating obligation of the same property is still reported
+            kf = [k for k in known if x.replayed and (k.get("obligation") == x.ob.name or
+                                                    (k.get("obligation_re") and re.search(k["obligation_re"], x.ob.name)))
+                  and re.search(k.get("detail_re", ""), x.reason or "")]
+            if kf:
+                x.known = kf[0]
+                known_hits.append(x)
+            else:
+                violations.append(x)
         elif x.status == "inconclusive":
             inconclusive.append(x)
     rep_root = os.path.join(VERIF, "replays")
@@ -812,8 +821,12 @@ def run_check(prop, obs, tier, seed, level_text="", assumptions=(), outside=(),
         evname = prop + ".altrepo.partial.json"   # runs against a scratch worktree never touch the evidence
     with open(os.path.join(VERIF, "evidence", evname), "w") as f:
         json.dump(ev, f, indent=1, sort_keys=True)
+    seen_k = []
     for r in known_hits:
-        log("KNOWN-FINDING: property=%s %s (%s)" % (prop, r.known.get("what", ""), r.ob.name))
+        if not any(r.known is k for k in seen_k):
+            seen_k.append(r.known)
+            log("KNOWN-FINDING: property=%s %s (%s)" % (prop, r.known.get("what", ""),
+                                                        ", ".join(x.ob.name for x in known_hits if x.known is r.known)))
     log("%s tier=%s obligations=%d discharged=%d violations=%d inconclusive=%d known=%d wall=%.1fs solver=%.1fs"
         % (prop, tier, len(results), len(ok), len(violations), len(inconclusive), len(known_hits),
            wall, sum(r.solver_s for r in results)))
